@@ -1,24 +1,25 @@
 """C04 -- persistence image pixels are weighted kernel mass over each pixel."""
 from .. import tlc, imgs
-LEVEL = "exploration"
-RULE = ("TraceImage.tla recomputes every pixel from the diagram: sum over points of weight * kernel mass of the pixel's square, image axes "
+LEVEL = "model_checking"
+RULE = ("M: ImageAccumulate.tla -- PersistenceImager.transform as a state machine (empty-argument early return, single / collection dispatch, serial or ANY worker schedule, private copy + skew conversion, one AddPoint per pair, assembly); PartialIsDef, ResultIsDef, EmptyIsZero, OneElementCollectionStaysAList, NonNegativeBounded, ArgUntouched and the lemmas on the definition (Additive, OrderFree, ZeroWeightNothing, SkewFormIrrelevant, CodedMassIsDefMass) for every call within the constants. R: every call TLC enumerated (diagrams and collections on the tick lattice, both input forms, with the expected numerators) replayed on a real imager with the box kernel, serially and through joblib workers; decided exactly by TraceAccumulate.tla with the model's own definitional operators. V: "
+        "TraceImage.tla recomputes every pixel from the diagram: sum over points of weight * kernel mass of the pixel's square, image axes "
         "(birth, persistence), with the skew conversion done by the spec. Kernel mass is decided exactly where the specification can: uniform "
         "box = rational overlap (all placements: inside, on a pixel border, outside the imaged region); isotropic (scalar or s*I, the fast "
         "path) and axis-aligned Gaussians with standard deviations 2..16 ticks and all pixel borders minus means on the 1/8-sd lattice = "
         "differences of the Phi table (1e-12). Weights: persistence^n (n = 1, 2), linear_ramp (two parameter sets), a user callable. "
         "Correlated Gaussians (|rho| <= 0.85) enter only through C11's relations and C13's kernel laws. Configurations x diagrams are "
-        "seeded; 3 exact embeddings. Non-trivial = every configuration; distinct = (configuration, diagrams, embedding). Level exploration.")
+        "seeded; 3 exact embeddings. Non-trivial = every configuration; distinct = (configuration, diagrams, embedding).")
 
 
 def run(ctx):
     quick = ctx.tier == "quick"
     ctx.rule = RULE
-    ctx.level = "exploration"
     ctx.assumptions += ["interior pixel values of correlated Gaussians are not compared with an independent 2-D integral (see C13)", "Phi table from the generated Tables.tla"]
     r = tlc.run_tlc("TestTables", init="Init", nxt="Next")
     ctx.model("Tables.tla constant relations (ASSUME)", r)
     r = tlc.run_tlc("ImagePixel", workers=16, constants=dict(MaxC=3, MaxW=2) if quick else dict(MaxC=4, MaxW=3), invariants=["InclusionExclusionIsMass", "Additive", "NonNegativeAtMostOne"], heap="6g")
     ctx.model("ImagePixel: corner inclusion-exclusion of the box CDF = overlap mass, additive over a pixel grid, within [0,1]", r)
+    imgs.model_and_replay(ctx, "C04", quick)
     imgs.run(ctx, "C04", 150 if quick else 1500, 12 if quick else 100)    # the first cases also go through the n_jobs branch (incl. skew=False)
 
 
